@@ -46,6 +46,62 @@ impl std::error::Error for Refused {}
 struct Failing;
 /// succeeds, drawing a data-dependent number of words
 struct VarWords;
+/// succeeds, drawing raw bytes of odd lengths, 32-bit and 128-bit values (every `RngCore` entry point)
+struct Bytes;
+
+fn byte_soup<R: Rng + ?Sized>(rng: &mut R) -> u64 {
+    let mut a = [0u8; 3];
+    rng.fill_bytes(&mut a);
+    let mut b = [0u8; 13];
+    rng.fill_bytes(&mut b);
+    let c: u32 = rng.next_u32();
+    let mut d = [0u8; 1];
+    rng.fill_bytes(&mut d);
+    let e: u128 = rng.random();
+    a.iter().chain(b.iter()).chain(d.iter()).fold(u64::from(c) ^ (e as u64), |acc, x| acc.wrapping_mul(257).wrapping_add(u64::from(*x)))
+}
+
+impl Selector<Pop> for Bytes {
+    type Error = Refused;
+    fn select<'p, R: Rng + ?Sized>(&self, pop: &'p Pop, rng: &mut R) -> Result<&'p Ind, Refused> {
+        let k = byte_soup(rng) as usize;
+        pop.get(k % pop.len().max(1)).ok_or(Refused("empty"))
+    }
+}
+impl Mutator<Vec<bool>> for Bytes {
+    type Error = Refused;
+    fn mutate<R: Rng + ?Sized>(&self, mut g: Vec<bool>, rng: &mut R) -> Result<Vec<bool>, Refused> {
+        let k = byte_soup(rng) as usize;
+        if !g.is_empty() {
+            let n = g.len();
+            g[k % n] ^= true;
+        }
+        Ok(g)
+    }
+}
+impl Recombinator<[Vec<bool>; 2]> for Bytes {
+    type Output = Vec<bool>;
+    type Error = Refused;
+    fn recombine<R: Rng + ?Sized>(&self, [a, b]: [Vec<bool>; 2], rng: &mut R) -> Result<Vec<bool>, Refused> {
+        let k = byte_soup(rng) as usize;
+        Ok(if k % 2 == 0 { a } else { b })
+    }
+}
+impl Composable for Bytes {}
+impl Operator<u64> for Bytes {
+    type Output = u64;
+    type Error = Refused;
+    fn apply<R: Rng + ?Sized>(&self, x: u64, rng: &mut R) -> Result<u64, Refused> {
+        Ok(x ^ byte_soup(rng))
+    }
+}
+impl<S: Selector<Pop>> ChildMaker<Pop, S> for Bytes {
+    type Error = Refused;
+    fn make_child<R: Rng + ?Sized>(&self, rng: &mut R, pop: &Pop, _: &S) -> Result<Ind, Refused> {
+        let k = byte_soup(rng) as usize;
+        pop.get(k % pop.len().max(1)).cloned().ok_or(Refused("empty"))
+    }
+}
 
 impl Selector<Pop> for Failing {
     type Error = Refused;
@@ -155,7 +211,8 @@ impl<S: Selector<Pop>> ChildMaker<Pop, S> for Failing {
 
 fn population(argseed: u64) -> Pop {
     let mut r = SmallRng::seed_from_u64(argseed ^ 0xE5A5);
-    (0..(2 + argseed % 6))
+    let n = if argseed % 5 == 0 { 0 } else { 2 + argseed % 6 };
+    (0..n)
         .map(|_| {
             let genome: Vec<bool> = (0..5).map(|_| r.random()).collect();
             let results: TestResults<Error<i64>> = (0..3).map(|_| r.random_range(0..3i64)).collect();
@@ -290,6 +347,7 @@ fn trace(args: &[String]) -> i32 {
         selector!("lexicase", Lexicase::new(3));
         selector!("failing", Failing);
         selector!("var_words", VarWords);
+        selector!("bytes", Bytes);
         macro_rules! mutator {
             ($imp:expr, $c:expr) => {
                 emit(&mut out, "mutator", $imp, all_forms!(s, $c, [DM<'_>, DMs<'_>, DMy<'_>, DMsy<'_>], |w, rng| {
@@ -301,6 +359,7 @@ fn trace(args: &[String]) -> i32 {
         mutator!("one_over_length", WithOneOverLength);
         mutator!("failing", Failing);
         mutator!("var_words", VarWords);
+        mutator!("bytes", Bytes);
         macro_rules! recombinator {
             ($imp:expr, $c:expr) => {
                 emit(&mut out, "recombinator", $imp, all_forms!(s, $c, [DR<'_>, DRs<'_>, DRy<'_>, DRsy<'_>], |w, rng| {
@@ -312,6 +371,7 @@ fn trace(args: &[String]) -> i32 {
         recombinator!("uniform", UniformXo);
         recombinator!("failing", Failing);
         recombinator!("var_words", VarWords);
+        recombinator!("bytes", Bytes);
         macro_rules! operator {
             ($imp:expr, $c:expr) => {
                 emit(&mut out, "operator", $imp, all_forms!(s, $c, [DO<'_>, DOs<'_>, DOy<'_>, DOsy<'_>], |w, rng| {
@@ -322,6 +382,7 @@ fn trace(args: &[String]) -> i32 {
         operator!("doubler", Doubler);
         operator!("failing", Failing);
         operator!("var_words", VarWords);
+        operator!("bytes", Bytes);
         macro_rules! child_maker {
             ($imp:expr, $c:expr) => {
                 emit(&mut out, "child_maker", $imp, all_forms!(s, $c, [DC<'_>, DCs<'_>, DCy<'_>, DCsy<'_>], |w, rng| {
@@ -333,6 +394,7 @@ fn trace(args: &[String]) -> i32 {
         }
         child_maker!("cloner", Cloner);
         child_maker!("failing", Failing);
+        child_maker!("bytes", Bytes);
     }
     out.finish();
     0
